@@ -1,6 +1,6 @@
 (* C07 / C03: schema consolidation (internal/ast/schema.go Consolidate, Merge) on the IR model, and
    codegen.Pipeline.Run's language loop over a SHARED, labelled heap value (internal/codegen/run.go).
-   Definitions only. Go map iteration is an explicit iteration sequence (Model/Perm.v). *)
+   Definitions only. *)
 From Cog Require Export Model.IR Model.IREq Model.Perm Model.Heap.
 Local Open Scope string_scope.
 Local Open Scope list_scope.
@@ -52,12 +52,17 @@ Fixpoint group_add (g : list (string * list schema)) (s : schema) : list (string
 (* byPackage, listed in first-appearance order (the Go map itself has no order) *)
 Definition group_by_package (ss : schemas) : list (string * list schema) := fold_left group_add ss [].
 
-(* `for pkg, groupedSchemas := range byPackage` over the iteration sequence `seq` *)
+(* the merge loop over a given sequence of (package, inputs of that package) *)
 Definition consolidate_seq (seq : list (string * list schema)) : res schemas :=
   mapM (fun pg => merge_group (fst pg) (snd pg)) seq.
 
-(* ord: the order the runtime picks for `range byPackage` (any permutation) *)
-Definition consolidate (ord : list (string * list schema) -> list (string * list schema)) (ss : schemas) : res schemas :=
+(* Schemas.Consolidate as it is NOW (fix 3c2d3f2): `for _, pkg := range packages`, the packages in
+   order of first appearance among the inputs; no map iteration is left *)
+Definition consolidate (ss : schemas) : res schemas := consolidate_seq (group_by_package ss).
+
+(* the variant BEFORE that fix (not cog's code any more): `for pkg, groupedSchemas := range
+   byPackage`; ord = the order the runtime picks for the map (any permutation) *)
+Definition consolidate_map_order (ord : list (string * list schema) -> list (string * list schema)) (ss : schemas) : res schemas :=
   consolidate_seq (ord (group_by_package ss)).
 
 Definition is_ok {A} (r : res A) : bool := match r with Ok _ => true | _ => false end.
